@@ -285,3 +285,34 @@ void h_DreheCodes(void) {
     VPOST(BAsmCode[j] == src, "C04: turning twice restores the line's code (WriteBytes turns back after writing)");
     VREACH("end");
 }
+
+/* DreheCodes for every line length (loop contracts asmcode_turn2/4): a line of CodeLen units of 1, 2 or 4 bytes,
+ * CodeLen up to the largest line the assembler accepts (MaxCodeLen_Max = 65535 units) */
+unsigned gk_t, g_t_old, gk_b, g_b_old;
+void h_DreheCodes_any(void) {
+    unsigned lg, gran, n, whole, j; unsigned char src, other; unsigned cl;
+    VND(lg, uint); VASSUME(lg == 1 || lg == 2 || lg == 4);
+    VND(gran, uint); VASSUME(gran == 1 || gran == 2 || gran == 4);
+    g_gran = gran; VND(cl, uint); VASSUME(cl <= 65535);
+    CodeLen = cl; n = cl * gran; whole = n - (n % lg);
+    ActPC = SegCode; { int i; for (i = 0; i < SegCountPlusStruct; i++) Grans[i] = 1; }
+    MaxCodeLen = n; BAsmCode = malloc(n); VASSUME(BAsmCode != NULL); WAsmCode = (Word*)BAsmCode; DAsmCode = (LongWord*)BAsmCode;
+    ActListGran = (ShortInt)lg;
+    VND(j, uint); VASSUME(j < n);
+    src = BAsmCode[j];
+    gk_t = j / lg; g_t_old = 0;
+    if (j < whole) {
+        other = BAsmCode[j ^ (lg - 1)];
+        if (lg == 2) g_t_old = WAsmCode[gk_t]; else if (lg == 4) g_t_old = DAsmCode[gk_t];
+    } else other = src;
+    gk_b = j; g_b_old = src;
+    DreheCodes();
+    if (j < whole) {
+        VPOST(BAsmCode[j ^ (lg - 1)] == src && BAsmCode[j] == other, "C04: turning reverses the bytes inside every listing word of the line, whatever its length (byte j <-> byte j ^ (word size - 1))");
+        VREACH("turned");
+        if (n > 40000 && lg == 2) VREACH("long line");
+    } else {
+        VPOST(BAsmCode[j] == src, "C04: bytes behind the last whole listing word stay");
+        VREACH("tail");
+    }
+}
